@@ -1,7 +1,281 @@
 import LunaVerif.Model.Usb2.SignalInEndpoint
+/-!
+# C17 — Status (signal) IN endpoints report the latched value consistently
+
+"Each time the host polls the endpoint, it receives the value of the monitored signal sampled when
+the request arrived, serialized in the configured byte order; if the host does not acknowledge, the
+retry carries the same value and toggle, and the toggle advances only after an ACK."
+
+The property is stated as an *acceptor* `Spec` that reads the endpoint's interface cycle by cycle from
+the host's side: a poll is **fresh** when the previous one was acknowledged (or there was none) and
+its value is the signal in the cycle of the request; the response must be exactly the serialisation
+of that value (`first` on byte 0, `last` on the final byte, `valid` held until the packet generator
+has taken all bytes); after the packet the host either ACKs (`status_read_complete` pulses exactly
+then, and the toggle flips) or sends a new token and requests again, which must repeat value and
+toggle.  `poll_returns_sampled_value` says that every trace of the model, for every configuration
+and every input history in which `ack` and `new_token` never coincide, is accepted.
+-/
 namespace LunaVerif.SignalIn
-theorem poll_returns_sampled_value : True := trivial
-theorem retry_same_value_and_toggle : True := trivial
-theorem toggle_advances_only_on_ack : True := trivial
-theorem serialise_decodes : True := trivial
+
+/-! ## Specification vocabulary -/
+
+/-- `n` little-endian bytes of `v`. -/
+def bytesLE : Nat → Nat → List Nat
+  | 0, _ => []
+  | n + 1, v => v % 256 :: bytesLE n (v / 256)
+
+/-- The number a little-endian byte string denotes. -/
+def fromBytesLE : List Nat → Nat
+  | [] => 0
+  | b :: bs => b + 256 * fromBytesLE bs
+
+/-- The wire format of a value: `ceil(width/8)` bytes, least significant first for "little", most
+significant first for "big". -/
+def serialise (c : Config) (v : Nat) : List Nat :=
+  if c.bigEndian then (bytesLE (nbytes c) v).reverse else bytesLE (nbytes c) v
+
+/-- What a host reading the packet in the configured byte order obtains. -/
+def decode (c : Config) (bs : List Nat) : Nat :=
+  fromBytesLE (if c.bigEndian then bs.reverse else bs)
+
+/-- Host-side reading of the protocol. -/
+inductive Spec
+  | fresh   (tog : Bool)                       -- no poll outstanding
+  | sending (v : Nat) (tog : Bool) (k : Nat)   -- answering with value `v`; `k` bytes have been taken
+  | sent    (v : Nat) (tog : Bool)             -- full packet out; an ACK is acceptable
+  | armed   (v : Nat) (tog : Bool)             -- no ACK before the next token: the next request is a retry
+deriving Repr, DecidableEq
+
+/-- One observed cycle: `none` = the property is violated in this cycle. -/
+def Spec.step (c : Config) : Spec → In → Out → Option Spec
+  | .fresh tog, i, o =>
+    if !o.valid && !o.complete && o.toggle == tog then
+      if packetRequested c i then some (.sending (i.signal % 2 ^ c.width) tog 0) else some (.fresh tog)
+    else none
+  | .sending v tog k, i, o =>
+    if o.valid && !o.complete && o.toggle == tog && (serialise c v)[k]? == some o.payload
+        && o.first == (k == 0) && o.last == (k + 1 == nbytes c) then
+      if i.txReady then
+        if k + 1 == nbytes c then some (.sent v tog) else some (.sending v tog (k + 1))
+      else some (.sending v tog k)
+    else none
+  | .sent v tog, i, o =>
+    if !o.valid && o.complete == i.ack && o.toggle == tog then
+      if i.ack then some (.fresh (!tog))
+      else if i.newToken then some (.armed v tog) else some (.sent v tog)
+    else none
+  | .armed v tog, i, o =>
+    if !o.valid && !o.complete && o.toggle == tog then
+      if packetRequested c i then some (.sending v tog 0) else some (.armed v tog)
+    else none
+
+def accepts (c : Config) : Spec → List (In × Out) → Bool
+  | _, [] => true
+  | sp, (i, o) :: rest =>
+    match sp.step c i o with
+    | none => false
+    | some sp' => accepts c sp' rest
+
+/-- Environment assumption: a host handshake and a new token are different packets. -/
+def LegalEnv (ins : List In) : Prop := ∀ i ∈ ins, ¬ (i.ack = true ∧ i.newToken = true)
+
+instance (ins : List In) : Decidable (LegalEnv ins) := by unfold LegalEnv; infer_instance
+
+/-! ## Serialisation facts -/
+
+theorem bytesLE_length (n v : Nat) : (bytesLE n v).length = n := by
+  induction n generalizing v with
+  | zero => rfl
+  | succ n ih => simp [bytesLE, ih]
+
+theorem fromBytesLE_bytesLE (n v : Nat) : fromBytesLE (bytesLE n v) = v % 256 ^ n := by
+  induction n generalizing v with
+  | zero => simp [bytesLE, fromBytesLE, Nat.mod_one]
+  | succ n ih =>
+    simp only [bytesLE, fromBytesLE, ih]
+    rw [Nat.pow_succ, Nat.mul_comm (256 ^ n) 256, Nat.mod_mul]
+
+theorem pow_width_le (c : Config) : 2 ^ c.width ≤ 256 ^ nbytes c := by
+  have : (256 : Nat) = 2 ^ 8 := by decide
+  rw [this, ← Nat.pow_mul]
+  apply Nat.pow_le_pow_right (by decide)
+  unfold nbytes; omega
+
+/-- The wire format loses nothing: decoding the serialisation of any value that fits the signal
+gives the value back (both byte orders, every width). -/
+theorem serialise_decodes (c : Config) (v : Nat) (hv : v < 2 ^ c.width) :
+    decode c (serialise c v) = v := by
+  have h : fromBytesLE (bytesLE (nbytes c) v) = v := by
+    rw [fromBytesLE_bytesLE]
+    exact Nat.mod_eq_of_lt (Nat.lt_of_lt_of_le hv (pow_width_le c))
+  unfold decode serialise
+  cases c.bigEndian <;> simp [h]
+
+theorem bytesLE_get (n v k : Nat) (hk : k < n) :
+    (bytesLE n v)[k]? = some (v / 2 ^ (8 * k) % 256) := by
+  induction n generalizing v k with
+  | zero => omega
+  | succ n ih =>
+    cases k with
+    | zero => simp [bytesLE]
+    | succ k =>
+      simp only [bytesLE, List.getElem?_cons_succ]
+      rw [ih (v / 256) k (by omega), Nat.div_div_eq_div_mul]
+      have : 256 * 2 ^ (8 * k) = 2 ^ (8 * (k + 1)) := by
+        rw [show 8 * (k + 1) = 8 * k + 8 by omega, Nat.pow_add]; omega
+      rw [this]
+
+/-- The byte the gateware's multiplexer selects is the `k`-th byte of the wire format. -/
+theorem serialise_get (c : Config) (v k : Nat) (hk : k < nbytes c) :
+    (serialise c v)[k]? = some (byteAt v (txIndex c k)) := by
+  unfold serialise txIndex byteAt
+  cases hb : c.bigEndian
+  · simp [bytesLE_get _ _ _ hk]
+  · simp only [if_true]
+    rw [List.getElem?_reverse (by rw [bytesLE_length]; exact hk), bytesLE_length,
+      bytesLE_get _ _ _ (by omega)]
+    have : nbytes c - 1 - k = nbytes c - k - 1 := by omega
+    rw [this]
+
+/-! ## Refinement -/
+
+/-- Abstraction map from the gateware's registers to the host-side reading. -/
+def absOf (s : State) : Spec :=
+  match s.fsm with
+  | .idle => .fresh s.toggle
+  | .transmit => .sending s.latched s.toggle s.sent
+  | .waitAck => .sent s.latched s.toggle
+  | .retransmit => .armed s.latched s.toggle
+
+/-- Invariant: while transmitting, the byte counter is inside the value. -/
+def Inv (c : Config) (s : State) : Prop := s.fsm = .transmit → s.sent < nbytes c
+
+theorem inv_init (c : Config) : Inv c init := by simp [Inv, init]
+
+theorem step_refines (c : Config) (hw : 1 ≤ c.width) (s : State) (i : In) (hs : Inv c s)
+    (hi : ¬ (i.ack = true ∧ i.newToken = true)) :
+    (absOf s).step c i (step c s i).2 = some (absOf (step c s i).1) ∧ Inv c (step c s i).1 := by
+  have hn : 1 ≤ nbytes c := by unfold nbytes; omega
+  rcases s with ⟨fsm, latched, sent, toggle⟩
+  cases fsm
+  · -- IDLE
+    by_cases hr : packetRequested c i = true
+    · simp [step, absOf, Spec.step, hr, Inv]; omega
+    · simp [step, absOf, Spec.step, hr, Inv]
+  · -- TRANSMIT_RESPONSE
+    have hk : sent < nbytes c := hs rfl
+    have hg := serialise_get c latched sent hk
+    by_cases hrd : i.txReady = true
+    · by_cases hl : sent + 1 = nbytes c
+      · simp [step, absOf, Spec.step, hrd, hl, hg, Inv]
+      · simp [step, absOf, Spec.step, hrd, hl, hg, Inv]; omega
+    · simp [step, absOf, Spec.step, hrd, hg, Inv]; omega
+  · -- WAIT_FOR_ACK
+    by_cases ha : i.ack = true
+    · have hnt : i.newToken = false := by
+        cases h : i.newToken
+        · rfl
+        · exact absurd ⟨ha, h⟩ hi
+      simp [step, absOf, Spec.step, ha, hnt, Inv]
+    · by_cases hnt : i.newToken = true
+      · simp [step, absOf, Spec.step, ha, hnt, Inv]
+      · simp [step, absOf, Spec.step, ha, hnt, Inv]
+  · -- RETRANSMIT
+    by_cases hr : packetRequested c i = true
+    · simp [step, absOf, Spec.step, hr, Inv]; omega
+    · simp [step, absOf, Spec.step, hr, Inv]
+
+theorem accepts_from (c : Config) (hw : 1 ≤ c.width) (s : State) (hs : Inv c s) (ins : List In)
+    (hl : LegalEnv ins) : accepts c (absOf s) (trace c s ins) = true := by
+  induction ins generalizing s with
+  | nil => rfl
+  | cons i is ih =>
+    have h := step_refines c hw s i hs (hl i (by simp))
+    simp only [trace, accepts, h.1]
+    exact ih _ h.2 (fun j hj => hl j (by simp [hj]))
+
+/-- **C17** (main theorem).  For every width ≥ 1, both byte orders, every endpoint number and every
+input history (token fields, requests, ACKs, `tx.ready` stalls, a signal that changes in any cycle)
+in which `ack` and `new_token` never coincide, the endpoint's trace from reset is accepted by the
+host-side specification: each fresh poll is answered with the serialisation of the signal value of
+the request cycle, a retry repeats value and toggle, `status_read_complete` pulses exactly on an ACK
+that follows the packet before any new token, and the toggle flips exactly then. -/
+theorem poll_returns_sampled_value (c : Config) (hw : 1 ≤ c.width) (ins : List In)
+    (hl : LegalEnv ins) : accepts c (.fresh false) (trace c init ins) = true :=
+  accepts_from c hw init (inv_init c) ins hl
+
+/-- One cycle, any state: the latched value changes only when a request is accepted in IDLE, and
+the toggle only on an ACK in WAIT_FOR_ACK — so everything sent between a fresh request and its ACK
+(first transmission and every retry) carries the same value and the same toggle. -/
+theorem retry_same_value_and_toggle (c : Config) (s : State) (i : In) :
+    ((step c s i).1.latched ≠ s.latched → s.fsm = .idle ∧ packetRequested c i = true) ∧
+    ((step c s i).1.toggle ≠ s.toggle → s.fsm = .waitAck ∧ i.ack = true) := by
+  rcases s with ⟨fsm, latched, sent, toggle⟩
+  cases fsm <;> simp [step] <;> (try split) <;> simp_all <;>
+    (cases i.ack <;> cases i.newToken <;> simp_all)
+
+/-- Number of `status_read_complete` strobes in a trace. -/
+def completes : List (In × Out) → Nat
+  | [] => 0
+  | (_, o) :: r => (if o.complete then 1 else 0) + completes r
+
+theorem toggle_parity_from (c : Config) (s : State) (ins : List In) :
+    ((runState c s ins).toggle = (s.toggle != (completes (trace c s ins) % 2 == 1))) ∧
+    (∀ io ∈ trace c s ins, io.2.complete = true → io.1.ack = true) := by
+  induction ins generalizing s with
+  | nil => simp [runState, trace, completes]
+  | cons i is ih =>
+    obtain ⟨h1, h2⟩ := ih (step c s i).1
+    have hstep : (step c s i).1.toggle = (s.toggle != (step c s i).2.complete) ∧
+        ((step c s i).2.complete = true → i.ack = true) := by
+      rcases s with ⟨fsm, latched, sent, toggle⟩
+      cases fsm <;> simp [step] <;> (try split) <;> simp_all <;>
+        (cases i.ack <;> cases i.newToken <;> simp_all)
+    have hm : ∀ n : Nat, ((1 + n) % 2 == 1) = !(n % 2 == 1) := by
+      intro n
+      rcases Nat.mod_two_eq_zero_or_one n with h | h <;> simp [Nat.add_mod, h]
+    constructor
+    · simp only [runState, trace, completes, h1, hstep.1]
+      cases s.toggle <;> cases (step c s i).2.complete <;> simp [hm]
+    · intro io hio
+      simp only [trace, List.mem_cons] at hio
+      rcases hio with rfl | hio
+      · exact hstep.2
+      · exact h2 io hio
+
+/-- For every history (no environment assumption): the toggle after the history is the parity of
+the number of `status_read_complete` strobes, and each strobe coincides with a host ACK — the toggle
+advances only on an ACK, once per acknowledged poll. -/
+theorem toggle_advances_only_on_ack (c : Config) (ins : List In) :
+    ((runState c init ins).toggle = (completes (trace c init ins) % 2 == 1)) ∧
+    (∀ io ∈ trace c init ins, io.2.complete = true → io.1.ack = true) := by
+  have h := toggle_parity_from c init ins
+  simpa [init] using h
+
+/-! ## Non-vacuity: a concrete poll, a retry after a lost ACK, and the ACK (width 9, big endian) -/
+
+def exIn (rfr nt ack rdy : Bool) (sig : Nat) : In := ⟨3, true, rfr, nt, ack, rdy, sig⟩
+
+def exHist : List In :=
+  [exIn false true false false 0x1FF, exIn true false false false 0x1A5,   -- request: 0x1A5 sampled
+   exIn false false false true 0x000, exIn false false false false 0x111,  -- byte 0 taken, stall
+   exIn false false false true 0x0FF,                                      -- byte 1 taken
+   exIn false true false false 0x123, exIn true false false false 0x0AA,   -- no ACK: token, request
+   exIn false false false true 0x001, exIn false false false true 0x002,   -- retry
+   exIn false false true false 0x003, exIn false false false false 0x004]  -- ACK
+
+example : LegalEnv exHist := by decide
+example : (trace ⟨9, true, 3⟩ init exHist).map (fun io => (io.2.valid, io.2.payload, io.2.toggle, io.2.complete))
+    = [(false, 0, false, false), (false, 0, false, false),
+       (true, 1, false, false), (true, 0xA5, false, false), (true, 0xA5, false, false),
+       (false, 0xA5, false, false), (false, 0xA5, false, false),
+       (true, 1, false, false), (true, 0xA5, false, false),
+       (false, 0xA5, false, true), (false, 0xA5, true, false)] := by decide
+example : serialise ⟨9, true, 3⟩ 0x1A5 = [1, 0xA5] := by decide
+/-- outside the environment assumption the gateware (and the model) do misbehave: ACK together with
+a new token flips the toggle but keeps the old value for the next poll. -/
+example : accepts ⟨8, false, 3⟩ (.fresh false) (trace ⟨8, false, 3⟩ init
+    [exIn true false false false 7, exIn false false false true 0, exIn false true true false 0,
+     exIn true false false false 9, exIn false false false true 0]) = false := by decide
+
 end LunaVerif.SignalIn
